@@ -54,7 +54,8 @@ def main():
             txt = [l.strip() for l in open(np_).read().split('\n') if l.strip() and not l.startswith('#')]
             note = (txt[0] if txt else '')[:150]
         rows.append('| %s | %s | %s | %s | %s |' % (nm, note.replace('|', '/'), 'yes' if meta.get('confirmed_by_me') else 'no',
-                                                  ('exit %s' % cur.get('check_exit')) if cur.get('applies') else 'patch no longer applies', ', '.join(viol[:3])))
+                                                  (('exit %s' % cur.get('check_exit')) + ('' if cur.get('demo_exit_with_patch') else ' (the demo PASSES with the patch on the current tree: neutralised by a later fix)'))
+                                                  if cur.get('applies') else 'patch no longer applies', ', '.join(viol[:3])))
     with open(os.path.join(root, 'README.md'), 'w') as f:
         f.write('# Seeded property-breaking changes\n\nEach directory holds `patch.diff` (the change), `demo.py` (exits 0 / prints PASS on the unchanged tree, exits 1 / prints FAIL with the patch), '
                 '`notes.md` (the sub-agent\'s description) and `meta.json` (what I ran to confirm it and what the check said).\n'
